@@ -64,7 +64,8 @@ def run(ctx):
     rng = ctx.rng
     diffs = []
     if os.path.exists(os.path.join(C.VERIF, "tools", "gen_bpm.py")):
-        diffs = C.unit_correspondence(ctx, kvh, C.gen_ops("gen_bpm.py", ctx.seed, 300 if ctx.quick else 3000, prefixes=("calc_distance", "dist_matrix", "upgma", "tree")), "distances/upgma")
+        diffs = C.unit_correspondence(ctx, kvh, C.gen_ops("gen_bpm.py", ctx.seed, "--no-exhaustive", "--random", 0, "--trees", 8 if ctx.quick else 200, "--matrices", 15 if ctx.quick else 300,
+                                                          prefixes=("calc_distance", "dist_matrix", "upgma", "upgma_exact", "tree", "tree_exact")), "distances/upgma")
     cases = []
     for i in range(90 if ctx.quick else 900):
         kind = rng.choice(["dna", "rna", "protein"])
@@ -77,6 +78,15 @@ def run(ctx):
         recs = recs[:n]
         if len(recs) < 2:
             continue
+        if rng.random() < 0.06:
+            # long sequences: the distance kernel looks at the first 1024 symbols of the shorter sequence only, so a sequence sharing its
+            # first 1024 symbols with a duplicated one is at distance 0 although neither contains the other (the clade theorem excludes
+            # this case by hypothesis; the end-to-end claim is searched here)
+            alpha = gen.AA if kind == "protein" else (gen.RNA if kind == "rna" else gen.DNA)
+            S = gen.rand_seq(rng, alpha, rng.choice([1100, 1600]))
+            T = S[:1024] + gen.rand_seq(rng, alpha, rng.choice([50, 300, 500]))
+            T2 = S[:1024] + gen.mutate(rng, S[1024:], alpha, 0.3, 0.15)
+            recs = [S, T, S] + ([T2] if rng.random() < 0.5 else []) + ([gen.mutate(rng, S, alpha, 0.2, 0.05)] if rng.random() < 0.5 else [])
         rng.shuffle(recs)
         recs = [("d%d" % k, s) for k, s in enumerate(recs)]
         if not premise_ok(recs, kind):
